@@ -1,6 +1,9 @@
+import math
+
 import algebra
 import layers
 import raychk
+import roundir
 import switches
 
 
@@ -19,3 +22,7 @@ def check(rep, tier, replay=None):
         "by terms below the tolerance at the largest t that selects them.  A mismatch is a definite violation; agreement along the rays "
         "examined is a necessary condition of the identity for all a (not a proof).  Rounding is not modelled.")
     raychk.run(rep, tier, "C04", ["drexp", "drinv"], 1e-7)
+    rep.explanations.append(
+        "Rule RND (props/roundir.py): first-order rounding-bound interpretation of the same IR over a grid of angles (both sides of every switch constant, pi - 10^-k; the inverse "
+        "up to pi - 1e-3), double 1e-7 and float 1e-2; >= 100x the tolerance is a violation.")
+    roundir.run(rep, tier, "C04", ["drexp", "drinv"], 1e-7, 1e-2, max_angle={"drinv": math.pi - 1e-3})
